@@ -20,7 +20,7 @@ TECHNIQUE = ('exhaustive enumeration of pumping families (unit alphabet derived 
              'doubling lengths up to a bound, CPU-time oracle in killable isolated workers')
 LEVEL_TEXT = ('Every unit of a run-time derived alphabet (every literal character and character-class member of every compiled '
               'pattern in pytrs.parser.rgxlib, plus ~45 short tokens) is pumped in 12 contexts x 7 suffixes with n = 4, 8, 16, ... up to '
-              '300 (quick) / 600 (thorough) characters; thorough adds all two-unit alternations; 30 structural families (repeated '
+              '300 (quick) / 600 (thorough) characters; thorough adds all two-unit alternations; 32 structural families (repeated '
               'Twp/Rge lines, section headers, lots, lists, aliquots, chains; ranges with k-digit end points and repeated maximal ranges, '
               'whose expansion is large although the text is short) are included. The oracle is a measured resource '
               '(CPU seconds), so this is labelled exploration rather than model checking; the enumeration itself is exhaustive '
@@ -30,7 +30,7 @@ LEVEL_NOTE = ('Trusted: time.process_time() inside the worker and the parent-sid
 RULE = (
     "case = (mode, prefix, unit or unit pair, suffix, n); n doubles from 4 until the text exceeds the length bound; each case is "
     "one timed execution of PLSSDesc(text, parse_qq=True). Non-trivial = every distinct text (texts are deduplicated per family). "
-    "A case violates when its CPU time (minimum of 3 runs) exceeds 2.0 s or the worker has to be killed at the deadline twice."
+    "A case violates when its CPU time (minimum of 3 runs when within 50 % of the limit) exceeds 2.0 s or the worker has to be killed at the deadline twice."
 )
 ASSUMPTIONS = [
     "CPU time of a single-threaded worker is a faithful proxy for 'takes more than a couple of seconds'",
@@ -221,6 +221,8 @@ def units(tier):
         us.append({'k': 'pump_punct', 'mode': None, 'u': [u]})
     for mode in MODES[tier]:
         for name in STRUCT_FAMILIES:
+            if name in VOLUME_FAMILIES and mode is not None:
+                continue
             us.append({'k': 'struct', 'mode': mode, 'name': name})
     return us
 
@@ -246,7 +248,7 @@ def measure(acc, fam, text, mode):
     key = f"{mode}|{text}"
     try:
         dt = timed(text, mode)
-        if LIMIT < dt < 4 * LIMIT:
+        if LIMIT < dt < 1.5 * LIMIT:       # borderline: take the minimum of three runs
             dt = min(dt, timed(text, mode), timed(text, mode))
     except Exception as e:  # noqa  (totality is C03's subject; time still counts)
         dt = -1.0
@@ -322,6 +324,13 @@ STRUCT_FAMILIES = {
     'aliquot_dups': lambda k: 'T154N-R97W Sec 14: ' + 'NE/4, ' * k,
     'twprge_secs': lambda k: '\n'.join(['T154N-R97W Secs 1 - 36: ALL'] * k),
 }
+# families whose *answer* is very large: k maximal three-digit section ranges (999 tracts each), and section ranges x lot ranges
+# (the lots of every tract are expanded).  Their cost does not depend on the mode; they are run under the default mode only.
+VOLUME_FAMILIES = {
+    'sec_ranges_999': lambda k: 'T154N-R97W Sections ' + ', '.join(['1-999'] * k) + ': NE/4',
+    'sec_x_lot_ranges': lambda k: 'T154N-R97W Secs ' + ', '.join(['1 - 99'] * max(1, k // 3)) + ': ' + ', '.join(['Lots 1 - 999'] * k),
+}
+STRUCT_FAMILIES.update(VOLUME_FAMILIES)
 
 
 def structural(acc, tier, mode, name):
